@@ -164,8 +164,16 @@ def gen_case(rng):
                 for _ in range(rng.randint(1, 3)):
                     new.append(gen.absent_label(rng, l + new, k))
                 axes2[d] = (new, k)
+            elif rng.random() < 0.4 and first["dims"]:
+                # differing secondary axis: needs align=True
+                q = rng.choice(first["dims"])
+                l, k = first["axes"][q]
+                l2 = [x for x in l if rng.random() < 0.7] + [gen.absent_label(rng, l, k)]
+                axes2[q] = (gen.reorder(rng, sorted(l2), rng.choice(['inc', 'dec', 'shuf'])), k)
+                c["align"] = True
             lst.append(gen_ds(rng, dims=first["dims"], axes=axes2, keys=[(k, v["dims"]) for k, v in first["vars"].items()]))
         c["list"] = lst
+        c["sort"] = c.get("align", False) and rng.random() < 0.5
         c["keys"] = rng.choice([None, rng.sample(['p', 'q', 'r'], nds), rng.sample([10, 20, 30], nds)])
         c["as_dict"] = what == 'stack_ds' and c["keys"] is not None and rng.random() < 0.4
     return c
@@ -304,14 +312,16 @@ def check(case, ctx):
         keys = case["keys"]
         names = list(case["list"][0]["vars"])
         if what == 'stack_ds':
+            akw = {"align": True, "sort": case.get("sort", False)} if case.get("align") else {}
             if case["as_dict"]:
-                label = "stack_ds(dict keys=%r, axis='new')" % (keys,)
+                label = "stack_ds(dict keys=%r, axis='new', %s)" % (keys, akw)
                 arg = dict(zip(keys, lst))
-                fn = lambda: da.stack_ds(arg, axis='new')
+                fn = lambda: da.stack_ds(arg, axis='new', **akw)
             else:
-                label = "stack_ds(list of %d, axis='new', keys=%r)" % (len(lst), keys)
-                fn = lambda: da.stack_ds(lst, axis='new', keys=keys)
-            exp = {k: da.stack([f[k] for f in frees], axis='new', keys=keys) for k in names}
+                label = "stack_ds(list of %d, axis='new', keys=%r, %s)" % (len(lst), keys, akw)
+                fn = lambda: da.stack_ds(lst, axis='new', keys=keys, **akw)
+            # variables lacking a dimension are untouched by the datasets' alignment: align only what each variable has
+            exp = {k: da.stack([f[k] for f in frees], axis='new', keys=keys, **akw) for k in names}
         else:
             label = "concatenate_ds(list of %d, axis=%r)" % (len(lst), d)
             fn = lambda: da.concatenate_ds(lst, axis=d)
